@@ -133,7 +133,10 @@ def resolve_path(spec, sb, default=None):
                 pass
         return d
     if kind == "literal":
-        return spec[1]
+        v = spec[1]
+        if isinstance(v, str) and v and not os.path.isabs(v):
+            return os.path.join(sb, "lit_" + v.replace(os.sep, "_"))  # keep literal file names inside the sandbox
+        return v
     return default
 
 
